@@ -173,16 +173,17 @@ impl SlotState {
 
         let (certs_created, mut votor_events, mut blocks_to_repair) = match vote {
             Vote::Notar(notar_vote) => {
-                let outputs = self.count_notar_stake(slot, notar_vote.block_hash(), voter_stake);
+                // store the vote before counting it, so that a certificate created
+                // by this vote crossing a threshold includes the vote itself
+                let block_hash = notar_vote.block_hash().clone();
                 self.votes.notar[v] = Some(notar_vote);
-                outputs
+                self.count_notar_stake(slot, &block_hash, voter_stake)
             }
             Vote::NotarFallback(nf_vote) => {
-                let outputs = self.count_notar_fallback_stake(nf_vote.block_hash(), voter_stake);
                 let block_hash = nf_vote.block_hash().clone();
-                let res = self.votes.notar_fallback[v].insert(block_hash, nf_vote);
+                let res = self.votes.notar_fallback[v].insert(block_hash.clone(), nf_vote);
                 assert!(res.is_none());
-                outputs
+                self.count_notar_fallback_stake(&block_hash, voter_stake)
             }
             Vote::Skip(skip_vote) => {
                 self.votes.skip[v] = Some(skip_vote);
